@@ -19,7 +19,7 @@ from sim.world import Run
 
 ID = "C37"
 LEVEL = "exploration"
-RUNS = {"quick": 25000, "thorough": 300000}
+RUNS = {"quick": 25000, "thorough": 1800000}
 BUDGET = {"quick": 100.0, "thorough": 3300.0}
 RULE = ("one run = 2-8 real devices of seeded classes and addresses (shared, passive, internal) and a seeded history of "
         "add/remove/re-add/illegal ops, telegrams and connection changes; non-trivial = at least one address shared by "
